@@ -318,10 +318,7 @@ func (vc *VC) copyBuiltin(dst, src SVal, dstT types.Type, rt types.Type) SVal {
 		a := vc.declare(vc.sym("cp_"+k), arrSort(sorts[i]))
 		oldD := vc.def("cpd", arrSort(sorts[i]), sel(M, dst.obj()))
 		oldS := vc.def("cps", arrSort(sorts[i]), sel(M, src.obj()))
-		// copied cells
-		vc.emit(fmt.Sprintf("(assert (forall ((i Int)) (! (=> (and (<= 0 i) (< i %s)) (= (select %s (+ %s i)) (select %s (+ %s i)))) :pattern ((select %s (+ %s i))))))",
-			cells, a, dst.off(), oldS, src.off(), a, dst.off()))
-		// also index-form pattern: for j in [doff, doff+cells)
+		// copied cells: for j in [doff, doff+cells) (the trigger is any read of the new array)
 		vc.emit(fmt.Sprintf("(assert (forall ((j Int)) (! (=> (and (<= %s j) (< j (+ %s %s))) (= (select %s j) (select %s (+ (- j %s) %s)))) :pattern ((select %s j)))))",
 			dst.off(), dst.off(), cells, a, oldS, dst.off(), src.off(), a))
 		// frame
@@ -360,11 +357,12 @@ func (vc *VC) appendBuiltin(c *ssa.CallCommon, rt types.Type) SVal {
 		oldR := vc.def("apo", arrSort(sorts[i]), sel(M, s.obj()))
 		srcA := vc.def("aps", arrSort(sorts[i]), sel(M, t.obj()))
 		// old elements preserved
-		vc.emit(fmt.Sprintf("(assert (forall ((j Int)) (! (=> (and (<= 0 j) (< j (* %s %s))) (= (select %s (+ %s j)) (select %s (+ %s j)))) :pattern ((select %s (+ %s j))))))",
-			s.ln(), fl, a, r.off(), oldR, s.off(), a, r.off()))
+		// (absolute index j; the trigger is any read of the new array)
+		vc.emit(fmt.Sprintf("(assert (forall ((j Int)) (! (=> (and (<= %s j) (< j (+ %s (* %s %s)))) (= (select %s j) (select %s (+ (- j %s) %s)))) :pattern ((select %s j)))))",
+			r.off(), r.off(), s.ln(), fl, a, oldR, r.off(), s.off(), a))
 		// appended elements
-		vc.emit(fmt.Sprintf("(assert (forall ((j Int)) (! (=> (and (<= 0 j) (< j (* %s %s))) (= (select %s (+ %s (* %s %s) j)) (select %s (+ %s j)))) :pattern ((select %s (+ %s (* %s %s) j))))))",
-			tl, fl, a, r.off(), s.ln(), fl, srcA, t.off(), a, r.off(), s.ln(), fl))
+		vc.emit(fmt.Sprintf("(assert (forall ((j Int)) (! (=> (and (<= (+ %s (* %s %s)) j) (< j (+ %s (* %s %s)))) (= (select %s j) (select %s (+ (- j (+ %s (* %s %s))) %s)))) :pattern ((select %s j)))))",
+			r.off(), s.ln(), fl, r.off(), newLen, fl, a, srcA, r.off(), s.ln(), fl, t.off(), a))
 		// in-place: cells outside the appended range keep their value
 		vc.emit(fmt.Sprintf("(assert (=> %s (forall ((j Int)) (! (=> (or (< j (+ %s (* %s %s))) (>= j (+ %s (* %s %s)))) (= (select %s j) (select %s j))) :pattern ((select %s j))))))",
 			fits, s.off(), s.ln(), fl, s.off(), newLen, fl, a, oldR, a))
